@@ -274,7 +274,8 @@ func ruleCorridor(w *World, r *Report) {
 	if okArgs {
 		r.add("INCLUDES", fn+" / line query", w.Pos(lc.Pos()), Discharged, "line IDs computed for (start, end, hZoom, vZoom) unchanged")
 	} else {
-		r.add("INCLUDES", fn+" / line query", w.Pos(lc.Pos()), Violated, "the line query does not receive start, end, hZoom, vZoom unchanged")
+		st := worst(argStatus(lc.Call.Args[0], f.Params[0]), argStatus(lc.Call.Args[1], f.Params[1]), argStatus(lc.Call.Args[2], f.Params[3]), argStatus(lc.Call.Args[3], f.Params[4]))
+		r.add("INCLUDES", fn+" / line query", w.Pos(lc.Pos()), st, "the line query does not receive start, end, hZoom, vZoom unchanged ("+shortInstr(lc)+")")
 	}
 	line := ssa.Value(extractOf(lc, 0))
 	isLine := func(v ssa.Value) bool { return line != nil && resolve(v) == line }
@@ -299,7 +300,7 @@ func ruleCorridor(w *World, r *Report) {
 		return
 	}
 	if !isLine(getN.Call.Args[0]) {
-		r.add("LAYERFIT", fn+" / candidates", w.Pos(getN.Pos()), Violated, "the neighbourhood box is not built around the line's IDs")
+		r.add("LAYERFIT", fn+" / candidates", w.Pos(getN.Pos()), Undecided, "the neighbourhood box is built around "+describeValue(getN.Call.Args[0])+", which is not recognisably the line's ID list")
 	} else {
 		r.add("LAYERFIT", fn+" / candidates", w.Pos(getN.Pos()), Discharged, "candidates = N-layer box around the line IDs minus the line IDs")
 	}
